@@ -115,7 +115,7 @@ def type_inference_report_frame(df: pd.DataFrame, typeset: VisionsTypeset) -> st
         >>> print(report)
     """
     padding = 5
-    max_column_length = max(len(column) for column in df.columns) + padding
+    max_column_length = max((len(str(column)) for column in df.columns), default=0) + padding
     max_type_length = 30
 
     report = ""
@@ -128,9 +128,9 @@ def type_inference_report_frame(df: pd.DataFrame, typeset: VisionsTypeset) -> st
         else:
             fill = "=="
         report += (
-            f"{column: <{max_column_length}} {type_before: <{max_type_length}} "
+            f"{str(column): <{max_column_length}} {str(type_before): <{max_type_length}} "
             f"{fill} "
-            f"{type_after: <{max_type_length}} \n"
+            f"{str(type_after): <{max_type_length}} \n"
         )
     report += (
         "In total {change_count} out of {type_count} types were changed.\n".format(
